@@ -28,6 +28,8 @@ func init() {
 			Trusted:     commonTrusted,
 		},
 		Mutants: []Mutant{
+			{Name: "re-imported templates are merged only once (agent seed C08/1)", File: "parse.go", Old: "\tfor _, _import := range t.imports {\n\t\tt.addBlocks(_import.processedBlocks)\n\t}", New: "\tmerged := make(map[*Template]struct{}, len(t.imports))\n\tfor _, _import := range t.imports {\n\t\tif _, done := merged[_import]; done {\n\t\t\tcontinue\n\t\t}\n\t\tmerged[_import] = struct{}{}\n\t\tt.addBlocks(_import.processedBlocks)\n\t}", Rule: "C08.order"},
+			{Name: "defaults loop stops once enough variables exist (agent seed C08/2)", File: "eval.go", Old: "\t\tfor i := 0; i < len(blockParam.List); i++ {\n\t\t\tp := &blockParam.List[i]\n\t\t\tif _, found", New: "\t\tfor i := 0; i < len(blockParam.List) && len(st.variables) < len(blockParam.List); i++ {\n\t\t\tp := &blockParam.List[i]\n\t\t\tif _, found", Rule: "C08.params"},
 			{Name: "own blocks merged before the extended chain", File: "parse.go", Old: "\tif t.extends != nil {\n\t\tt.addBlocks(t.extends.processedBlocks)\n\t}\n\n\tfor _, _import := range t.imports {\n\t\tt.addBlocks(_import.processedBlocks)\n\t}\n\n\tt.addBlocks(t.passedBlocks)\n", New: "\tt.addBlocks(t.passedBlocks)\n\n\tif t.extends != nil {\n\t\tt.addBlocks(t.extends.processedBlocks)\n\t}\n\n\tfor _, _import := range t.imports {\n\t\tt.addBlocks(_import.processedBlocks)\n\t}\n", Rule: "C08.order"},
 			{Name: "imports merged before the extended chain", File: "parse.go", Old: "\tif t.extends != nil {\n\t\tt.addBlocks(t.extends.processedBlocks)\n\t}\n\n\tfor _, _import := range t.imports {\n\t\tt.addBlocks(_import.processedBlocks)\n\t}\n", New: "\tfor _, _import := range t.imports {\n\t\tt.addBlocks(_import.processedBlocks)\n\t}\n\n\tif t.extends != nil {\n\t\tt.addBlocks(t.extends.processedBlocks)\n\t}\n", Rule: "C08.order"},
 			{Name: "first definition wins in addBlocks", File: "parse.go", Old: "\tfor key, value := range blocks {\n\t\tt.processedBlocks[key] = value\n\t}", New: "\tfor key, value := range blocks {\n\t\tif _, ok := t.processedBlocks[key]; !ok {\n\t\t\tt.processedBlocks[key] = value\n\t\t}\n\t}", Rule: "C08.order"},
@@ -113,6 +115,25 @@ func c08order(c *an.Ctx) {
 						if rs, ok := st.(*ast.RangeStmt); ok && p.FieldKey(info, rs.X) == "Template.imports" {
 							if vid, ok := rs.Value.(*ast.Ident); ok && an.ObjOf(info, vid) == an.ObjOf(info, id) {
 								class = "imports"
+								// every import must be merged, in order: the call is a direct statement of the loop body
+								// and nothing in the body can skip it
+								direct := false
+								for _, bs := range rs.Body.List {
+									if es, ok := bs.(*ast.ExprStmt); ok && es.X == ast.Expr(call) {
+										direct = true
+									}
+								}
+								skips := false
+								ast.Inspect(rs.Body, func(m ast.Node) bool {
+									switch m.(type) {
+									case *ast.BranchStmt, *ast.ReturnStmt:
+										skips = true
+									}
+									return true
+								})
+								if !direct || skips {
+									class = "imports-merged-conditionally"
+								}
 							}
 						}
 					}
@@ -683,6 +704,63 @@ func c08params(c *an.Ctx) {
 	}
 	c.Check(lastYield != token.NoPos && firstBlock != token.NoPos && lastYield < firstBlock, "C08.params", "(*Runtime).executeYieldBlock/args-before-defaults", f.Pos(),
 		"the yield's arguments are bound before the block's defaults are considered", "the yield's arguments are not bound before the block's declared parameters are defaulted")
+	// both parameter loops visit every element: `for i := 0; i < len(<list>.List); i++` (or a range) without early exit
+	nLoops := 0
+	an.InspectOwn(f, func(n ast.Node) bool {
+		var body *ast.BlockStmt
+		header := ""
+		switch l := n.(type) {
+		case *ast.ForStmt:
+			body = l.Body
+			header = strings.ReplaceAll(an.Str(l.Cond), " ", "")
+			if l.Cond == nil {
+				header = "<none>"
+			}
+		case *ast.RangeStmt:
+			body = l.Body
+		default:
+			return true
+		}
+		hasStore := false
+		for _, s := range stores {
+			if s.as.Pos() >= body.Pos() && s.as.End() <= body.End() {
+				hasStore = true
+			}
+		}
+		if !hasStore {
+			return true
+		}
+		nLoops++
+		complete := true
+		why := ""
+		if header != "" {
+			okHdr := false
+			for _, lst := range []string{blockParam.Name(), yieldParam.Name()} {
+				if header == "i<len("+lst+".List)" {
+					okHdr = true
+				}
+			}
+			if !okHdr {
+				complete, why = false, "its condition is `"+header+"`, not a plain bound over the whole parameter list"
+			}
+		}
+		ast.Inspect(body, func(m ast.Node) bool {
+			switch b := m.(type) {
+			case *ast.FuncLit:
+				return false
+			case *ast.BranchStmt:
+				complete, why = false, "it contains `"+b.Tok.String()+"`"
+			case *ast.ReturnStmt:
+				complete, why = false, "it contains a return"
+			}
+			return true
+		})
+		c.Check(complete, "C08.params", "(*Runtime).executeYieldBlock/loop-complete", n.Pos(), "the parameter loop visits every element of its list",
+			"a parameter loop of executeYieldBlock may stop before every parameter was handled ("+why+"): omitted parameters do not get their defaults / arguments are not bound")
+		return true
+	})
+	c.Expect("C08.params", "parameter loops", nLoops, 2)
+
 	// the found test looks up the same key it then stores
 	okFound := false
 	an.InspectOwn(f, func(n ast.Node) bool {
